@@ -458,3 +458,74 @@ pub proof fn lemma_next_id_determined(a: A, x: A, y: A, r1: int, r2: int)
     if r1 < r2 { assert(a.tag[r1] != 0); }
     if r2 < r1 { assert(a.tag[r2] != 0); }
 }
+
+// -------------------------------- C13: what slice() presupposes is an invariant --------------------------------
+
+/// the empty graph has no edges, so every edge target is in range
+//# L13-targets-in-range-initially: C13
+pub proof fn lemma_targets_ok_empty(a: A, cap: int)
+    requires 0 <= cap <= usize::MAX, empty_state(a, cap),
+    ensures targets_ok(a),
+{
+}
+
+/// every call keeps "edge targets are ids below the capacity and no vertex points at itself": an edge is only ever
+/// created by bind(), whose endpoints are present (hence in range) and distinct
+//# L13-targets-stay-in-range: C13
+pub proof fn lemma_targets_ok_step(a: A, a2: A, op: Op, n: int)
+    requires inv(a), targets_ok(a), step(a, a2, op, n),
+    ensures targets_ok(a2),
+{
+    lemma_step_inv(a, a2, op, n);
+    match op {
+        Op::Bind(v1, v2, l) => {
+            let s = a.edges[v1];
+            let s2 = upsert(s, l, v2 as usize);
+            lemma_key_index(s, l);
+            assert forall|u: int, j: int| 0 <= u < a2.edges.len() && 0 <= j < a2.edges[u].len()
+                implies (#[trigger] a2.edges[u][j]).1 < a2.edges.len() && a2.edges[u][j].1 != u by {
+                if u == v1 {
+                    assert(a2.edges[u] == s2);
+                    let i = micromap::key_index(s, l);
+                    if i >= 0 {
+                        if j != i { assert(s2[j] == s[j]); assert(a.edges[u][j].1 < a.edges.len()); }
+                    } else {
+                        if j < s.len() { assert(s2[j] == s[j]); assert(a.edges[u][j].1 < a.edges.len()); }
+                    }
+                } else {
+                    assert(a2.edges[u] == a.edges[u]);
+                    assert(a.edges[u][j].1 < a.edges.len());
+                }
+            }
+        }
+        Op::Add(v) => {
+            assert forall|u: int, j: int| 0 <= u < a2.edges.len() && 0 <= j < a2.edges[u].len()
+                implies (#[trigger] a2.edges[u][j]).1 < a2.edges.len() && a2.edges[u][j].1 != u by {
+                assert(a2.edges[u] == a.edges[u]);
+                assert(a.edges[u][j].1 < a.edges.len());
+            }
+        }
+        _ => {
+            assert(a2.edges =~= a.edges);
+            assert forall|u: int, j: int| 0 <= u < a2.edges.len() && 0 <= j < a2.edges[u].len()
+                implies (#[trigger] a2.edges[u][j]).1 < a2.edges.len() && a2.edges[u][j].1 != u by {
+                assert(a.edges[u][j].1 < a.edges.len());
+            }
+        }
+    }
+}
+
+/// ... hence along every history that starts in the empty graph
+//# L13-targets-in-range-always: C13
+pub proof fn lemma_targets_ok_run(s: Seq<A>, ops: Seq<Op>, n: int, k: int)
+    requires run(s, ops, n), inv(s[0]), targets_ok(s[0]), 0 <= k <= ops.len(),
+    ensures targets_ok(s[k]),
+    decreases k,
+{
+    if k > 0 {
+        lemma_targets_ok_run(s, ops, n, k - 1);
+        lemma_run_inv(s, ops, n, k - 1);
+        assert(step(s[k - 1], s[k - 1 + 1], ops[k - 1], n));
+        lemma_targets_ok_step(s[k - 1], s[k], ops[k - 1], n);
+    }
+}
